@@ -371,9 +371,19 @@ func genDFile(r *Rand, tier string) *dFile {
 		if r.Chance(1, 4) {
 			a.Long = Pick(r, []string{"Long Name", "The shop (v2)"})
 		}
-		// mixins: only applications that mix in nothing themselves (the last one of the pool in use)
-		if i < n-1 && n > 1 && r.Chance(1, 3) {
-			a.Mixins = append(a.Mixins, g.apps[n-1])
+		// mixins: any other application, chains and cycles included (what is mixed in is what the
+		// applications reached declare themselves, first met first)
+		if n > 1 && r.Chance(1, 3) {
+			others := []int{}
+			for j := 0; j < n; j++ {
+				if j != i {
+					others = append(others, j)
+				}
+			}
+			Shuffle(r, others)
+			for _, j := range others[:1+r.Intn(min(2, len(others)))] {
+				a.Mixins = append(a.Mixins, g.apps[j])
+			}
 		}
 		for t, tn := range g.types[appKey(parts)] {
 			td := dTypeDecl{Name: tn, Attrs: g.attrs(true), Fields: []dField{}, Items: []dEnumItem{}, Members: []dType{}}
@@ -470,7 +480,12 @@ func genDFile(r *Rand, tier string) *dFile {
 				} else if r.Chance(2, 3) {
 					a.Collector = append(a.Collector, dTemplate{K: "call", T: Pick(r, c02EpNames), Target: append([]string{}, Pick(r, g.apps)...), Attrs: ta})
 				} else {
-					a.Collector = append(a.Collector, dTemplate{K: "endpoint", T: a.Eps[r.Intn(len(a.Eps))].Name, Target: []string{}, Attrs: ta})
+					ep := a.Eps[r.Intn(len(a.Eps))]
+					if n := len(ep.Attrs.Tags); n > 0 && r.Bool() {
+						// the template's tags begin with the tag the endpoint's own list ends on
+						ta.Tags = append([]string{ep.Attrs.Tags[n-1]}, Pick(r, [][]string{{"audited"}, {"audited", "traced"}, {ep.Attrs.Tags[n-1], "audited"}})...)
+					}
+					a.Collector = append(a.Collector, dTemplate{K: "endpoint", T: ep.Name, Target: []string{}, Attrs: ta})
 				}
 			}
 		}
